@@ -255,7 +255,30 @@ func skipGuard(r *ssa.Range) ssa.Value {
 
 func (st *pstate) schedPolicy(fr *frame) string {
 	cfg := &st.ex.Cfg
+	if len(cfg.SchedScope) > 0 {
+		// dynamic scope: map ranges are schedule sites only while one of the named functions is on the stack
+		in := false
+		for f := fr; f != nil && !in; f = f.caller {
+			name := f.fn.String()
+			for _, s := range cfg.SchedScope {
+				if strings.Contains(name, s) {
+					in = true
+					break
+				}
+			}
+		}
+		if !in {
+			return "first"
+		}
+	}
 	if fr.fn.Pkg == nil || !strings.HasPrefix(fr.fn.Pkg.Pkg.Path(), cfg.RepoPrefix) || cfg.RepoPrefix == "" {
+		// dependencies: only the named functions (e.g. gonum's map iterator)
+		name := fr.fn.String()
+		for _, s := range cfg.SchedDeps {
+			if strings.Contains(name, s) {
+				return cfg.Sched
+			}
+		}
 		return "first"
 	}
 	if isHarnessFn(fr.fn) {
